@@ -86,13 +86,20 @@ def rnd (prec : Int) (m0 : Mant) : Mant := if 0 < prec then roundP m0 prec.toNat
 theorem rnd_nonpos {prec : Int} (h : prec ≤ 0) (m0 : Mant) : rnd prec m0 = m0 := by
   unfold rnd; rw [if_neg (by omega)]
 
-theorem numberCore_length (s : List Char) (neg signed : Bool) (mant : List Char) (e prec : Int)
+/-- number of leading zeros that `numberCore` drops from the mantissa -/
+def droppedZeros (mant : List Char) : Nat :=
+  min ((splitLastDot mant).1.length - (dropZeros (splitLastDot mant).1).length) (mant.length - 1)
+
+/-- `numberCore` returns its input, or `0`, or something that fits after the sign and the dropped zeros -/
+theorem numberCore_shape (s : List Char) (neg signed : Bool) (mant : List Char) (e prec : Int)
     (hs : (if signed then 1 else 0) + mant.length + expLen e ≤ s.length)
-    (hneg : neg = true → signed = true) (hlen : 1 ≤ s.length)
+    (hneg : neg = true → signed = true)
     (hround : ∀ m0 : Mant, m0.e = e → mlen m0.ip m0.fp ≤ mant.length →
+      (decide (0 < prec) && expNearEdge e s.length) = false →
       mlen (rnd prec m0).ip (rnd prec m0).fp + expLen (rnd prec m0).e ≤ mlen m0.ip m0.fp + expLen m0.e) :
-    (numberCore s neg signed mant e prec).length ≤ s.length := by
-  unfold numberCore
+    numberCore s neg signed mant e prec = s ∨ numberCore s neg signed mant e prec = ['0'] ∨
+    (numberCore s neg signed mant e prec).length + droppedZeros mant ≤ s.length := by
+  unfold numberCore droppedZeros
   simp only []
   have hsp := splitLastDot_length mant
   generalize splitLastDot mant = sp at hsp ⊢
@@ -101,37 +108,58 @@ theorem numberCore_length (s : List Char) (neg signed : Bool) (mant : List Char)
   generalize hdr : min (ipart.length - (dropZeros ipart).length) (mant.length - 1) = dropped
   have hdl : dropped ≤ ipart.length := by omega
   split
-  · simpa using hlen
+  · right; left; rfl
   · split
-    · simpa using hlen
-    · have hfpl := dropTrail_length_le '0' (fo.getD [])
-      have hml : mlen (ipart.drop dropped) (dropTrail '0' (fo.getD [])) + dropped ≤ mant.length := by
-        have h1 := mlen_cases (ipart.drop dropped) (dropTrail '0' (fo.getD []))
-        simp only [List.length_drop] at h1
-        cases fo with
-        | none =>
-          simp only [dotLen, Option.getD_none, dropTrail_nil, List.length_nil] at hsp h1 hfpl ⊢
+    · right; left; rfl
+    · split
+      · left; rfl
+      · rename_i hguard
+        have hguard' : (decide (0 < prec) && expNearEdge e s.length) = false := by
+          cases h : (decide (0 < prec) && expNearEdge e s.length) with
+          | true => exact absurd h hguard
+          | false => rfl
+        have hfpl := dropTrail_length_le '0' (fo.getD [])
+        have hml : mlen (ipart.drop dropped) (dropTrail '0' (fo.getD [])) + dropped ≤ mant.length := by
+          have h1 := mlen_cases (ipart.drop dropped) (dropTrail '0' (fo.getD []))
+          simp only [List.length_drop] at h1
+          cases fo with
+          | none =>
+            simp only [dotLen, Option.getD_none, dropTrail_nil, List.length_nil] at hsp h1 hfpl ⊢
+            omega
+          | some f =>
+            simp only [dotLen, Option.getD_some] at hsp h1 hfpl ⊢
+            omega
+        have hm := hround { ip := ipart.drop dropped, fp := dropTrail '0' (fo.getD []), e := e } rfl
+          (by simp only []; omega) hguard'
+        simp only [] at hm
+        have hW : mlen (rnd prec { ip := ipart.drop dropped, fp := dropTrail '0' (fo.getD []), e := e }).ip
+            (rnd prec { ip := ipart.drop dropped, fp := dropTrail '0' (fo.getD []), e := e }).fp +
+            expLen (rnd prec { ip := ipart.drop dropped, fp := dropTrail '0' (fo.getD []), e := e }).e ≤
+            s.length - ((if signed then 1 else 0) + dropped) := by
           omega
-        | some f =>
-          simp only [dotLen, Option.getD_some] at hsp h1 hfpl ⊢
+        have hpn := printNum_length s neg (s.length - ((if signed then 1 else 0) + dropped)) _ hW
+        unfold rnd at hpn
+        rcases hpn with hp | ⟨u, hp, hu⟩
+        · left; exact hp
+        · right; right
+          rw [hp, sgn_length]
+          have : (if neg then 1 else 0) ≤ (if signed then 1 else 0) := by
+            cases neg with
+            | false => simp
+            | true => simp [hneg rfl]
           omega
-      have hm := hround { ip := ipart.drop dropped, fp := dropTrail '0' (fo.getD []), e := e } rfl (by simp only []; omega)
-      simp only [] at hm
-      have hW : mlen (rnd prec { ip := ipart.drop dropped, fp := dropTrail '0' (fo.getD []), e := e }).ip
-          (rnd prec { ip := ipart.drop dropped, fp := dropTrail '0' (fo.getD []), e := e }).fp +
-          expLen (rnd prec { ip := ipart.drop dropped, fp := dropTrail '0' (fo.getD []), e := e }).e ≤
-          s.length - ((if signed then 1 else 0) + dropped) := by
-        omega
-      have hpn := printNum_length s neg (s.length - ((if signed then 1 else 0) + dropped)) _ hW
-      unfold rnd at hpn
-      rcases hpn with hp | ⟨u, hp, hu⟩
-      · rw [hp]; exact Nat.le_refl _
-      · rw [hp, sgn_length]
-        have : (if neg then 1 else 0) ≤ (if signed then 1 else 0) := by
-          cases neg with
-          | false => simp
-          | true => simp [hneg rfl]
-        omega
+
+theorem numberCore_length (s : List Char) (neg signed : Bool) (mant : List Char) (e prec : Int)
+    (hs : (if signed then 1 else 0) + mant.length + expLen e ≤ s.length)
+    (hneg : neg = true → signed = true) (hlen : 1 ≤ s.length)
+    (hround : ∀ m0 : Mant, m0.e = e → mlen m0.ip m0.fp ≤ mant.length →
+      (decide (0 < prec) && expNearEdge e s.length) = false →
+      mlen (rnd prec m0).ip (rnd prec m0).fp + expLen (rnd prec m0).e ≤ mlen m0.ip m0.fp + expLen m0.e) :
+    (numberCore s neg signed mant e prec).length ≤ s.length := by
+  rcases numberCore_shape s neg signed mant e prec hs hneg hround with h | h | h
+  · rw [h]; exact Nat.le_refl _
+  · rw [h]; simpa using hlen
+  · omega
 
 /-- the exponent that `number` reads from `s` (`none`: the input is returned unchanged) -/
 def modelExp (s : List Char) : Option Int :=
@@ -139,6 +167,7 @@ def modelExp (s : List Char) : Option Int :=
 
 theorem number_length_gen (s : List Char) (prec : Int)
     (hround : ∀ m0 : Mant, modelExp s = some m0.e → mlen m0.ip m0.fp ≤ s.length →
+      (decide (0 < prec) && expNearEdge m0.e s.length) = false →
       mlen (rnd prec m0).ip (rnd prec m0).fp + expLen (rnd prec m0).e ≤ mlen m0.ip m0.fp + expLen m0.e) :
     (number s prec).length ≤ s.length := by
   unfold number
@@ -163,7 +192,7 @@ theorem number_length_gen (s : List Char) (prec : Int)
     · exact Nat.le_refl _
     · rename_i e he
       apply numberCore_length s neg signed mant e prec _ hns (by omega)
-        (fun m0 h1 h2 => hround m0 (by rw [hme, he, h1]) (by omega))
+        (fun m0 h1 h2 h3 => hround m0 (by rw [hme, he, h1]) (by omega) (by rw [h1]; exact h3))
       have : expLen e ≤ rest.length := by
         cases rest with
         | nil => simp [expOfRest] at he; subst he; simp [expLen]
